@@ -182,6 +182,9 @@ def get_crop_item_from_points(points, wcs, crop_by_values, keepdims):
             # If returned value is a 0-d array, convert to a length-1 tuple.
             if isinstance(point_array_indices, np.ndarray) and point_array_indices.ndim == 0:
                 point_array_indices = (point_array_indices.item(),)
+            else:
+                # Convert from scalar arrays to scalars
+                point_array_indices = tuple(np.asarray(a).item() for a in point_array_indices)
         for axis, index in zip(array_axes_with_input, point_array_indices):
             combined_points_array_idx[axis] = combined_points_array_idx[axis] + [index]
     # Define slice item with which to slice cube.
@@ -192,8 +195,10 @@ def get_crop_item_from_points(points, wcs, crop_by_values, keepdims):
             result_is_scalar = False
             item.append(slice(None))
         else:
-            min_idx = min(axis_indices)
-            max_idx = max(axis_indices) + 1
+            # A point off the low edge of the array must extend the region to the edge,
+            # not be read as an index counted from the end of the axis.
+            min_idx = max(min(axis_indices), 0)
+            max_idx = max(max(axis_indices) + 1, min_idx)
             if max_idx - min_idx == 1 and not keepdims:
                 item.append(min_idx)
             else:
